@@ -62,6 +62,9 @@ func genProgram(t *rapid.T, maxTasks, maxOps int, oneType, noAsync bool) *Case {
 				if !noAsync && rapid.IntRange(0, 4).Draw(t, "deadCtx") == 0 {
 					op.Dead, op.Live = true, false
 				}
+				if !noAsync && !op.Dead && rapid.IntRange(0, 5).Draw(t, "midCtx") == 0 {
+					op.Mid, op.Live = true, false
+				}
 			}
 			ops = append(ops, op)
 		}
